@@ -228,5 +228,12 @@ def command_line():
     return guarded("cli", run)
 
 
+def shared():
+    """the string-size option reaches every declaration of a DIM statement whatever the order of the sizes in it (shared with
+    C10); the dependency option adds the procedures *this* program needs, whatever was converted before (shared with C13)"""
+    from tx import p_c10, p_c13
+    return [dict(o, id="size/" + o["id"]) for o in p_c10.dim_contract() if "one statement" in o["id"]] + [dict(o, id="deps/" + o["id"]) for o in p_c13.history()]
+
+
 def obligations():
-    return footprints() + command_line()
+    return footprints() + command_line() + shared()
